@@ -180,11 +180,12 @@ type hConn struct {
 	l    int
 
 	// guarded by m.mu
-	innerCloses int
-	firstClose  int   // log index of the first inner Close, -1
-	closer      *call // call during which the first inner Close happened
-	wrapper     net.Conn
-	closeIssued bool
+	closeErrMode int // 0: Close succeeds; 1: the first Close call returns an error; 2: every Close call does
+	innerCloses  int
+	firstClose   int   // log index of the first inner Close, -1
+	closer       *call // call during which the first inner Close happened
+	wrapper      net.Conn
+	closeIssued  bool
 }
 
 func (c *hConn) RemoteAddr() net.Addr { return hAddr{c.id} }
@@ -201,10 +202,19 @@ func (c *hConn) Close() error {
 		c.closer = cl
 		m.open--
 	}
+	fail := c.closeErrMode == 2 || (c.closeErrMode == 1 && c.innerCloses == 1)
 	m.mu.Unlock()
 	_ = c.peer.Close()
-	return c.Conn.Close()
+	err := c.Conn.Close()
+	if fail {
+		// The connection is gone all the same (as with ECONNRESET or EIO from
+		// close(2)); only the report differs.
+		return errInnerClose
+	}
+	return err
 }
+
+var errInnerClose = errors.New("c18: injected close failure: connection reset by peer")
 
 // hListener is the inner listener that the limiter wraps.
 type hListener struct {
@@ -423,7 +433,7 @@ func (m *monitor) endCall(c *call, conn net.Conn, err error) {
 
 // dial makes one connection available on l (or hands it to a pending inner
 // Accept).
-func (m *monitor) dial(l *hListener) {
+func (m *monitor) dial(l *hListener, closeErrMode int) {
 	srv, cli := net.Pipe()
 	m.mu.Lock()
 	defer m.mu.Unlock()
@@ -434,7 +444,7 @@ func (m *monitor) dial(l *hListener) {
 		return
 	}
 	m.nextID++
-	hc := &hConn{Conn: srv, peer: cli, m: m, id: m.nextID, l: l.idx, firstClose: -1}
+	hc := &hConn{Conn: srv, peer: cli, m: m, id: m.nextID, l: l.idx, firstClose: -1, closeErrMode: closeErrMode}
 	m.conns[hc.id] = hc
 	if len(l.waiters) > 0 {
 		w := l.waiters[0]
@@ -478,13 +488,14 @@ type mstate struct {
 }
 
 type mev struct {
-	Failed string `json:"failed_pending_accept,omitempty"` // release caused by a failing inner Accept: its kind
-	L      int    `json:"l"`
-	Adm    bool   `json:"admit"`
-	Opt    bool   `json:"only_if_accepting,omitempty"`
-	Lo     int    `json:"lo"`
-	Hi     int    `json:"hi"`
-	Desc   string `json:"desc"`
+	ErrClose bool   `json:"inner_close_failed,omitempty"`    // release of a connection whose inner Close returned an error
+	Failed   string `json:"failed_pending_accept,omitempty"` // release caused by a failing inner Accept: its kind
+	L        int    `json:"l"`
+	Adm      bool   `json:"admit"`
+	Opt      bool   `json:"only_if_accepting,omitempty"`
+	Lo       int    `json:"lo"`
+	Hi       int    `json:"hi"`
+	Desc     string `json:"desc"`
 }
 
 func explore(pre []mstate, evs []mev, stop, resume int) (finals []mstate) {
@@ -571,6 +582,7 @@ type action struct {
 	Concurrent bool   `json:"concurrent,omitempty"`
 	PreDial    bool   `json:"predial,omitempty"`
 	FailLate   bool   `json:"pending_accepts_fail_later,omitempty"`
+	CloseErr   int    `json:"conn_close_fails,omitempty"` // dial / predial: 1 first Close call of the connection fails, 2 every call
 }
 
 type features struct {
@@ -604,6 +616,46 @@ func (h *logCounter) Handle(_ context.Context, r slog.Record) error {
 func (h *logCounter) WithAttrs([]slog.Attr) slog.Handler { return h }
 func (h *logCounter) WithGroup(string) slog.Handler      { return h }
 
+// schedHandler is the limiter's logger of one schedule.  The limiter logs
+// "accept waiting" after an Accept has found that it must wait and before it
+// goes to sleep on the condition variable; the schedule may park the accepting
+// goroutine right there, or make it yield.
+type schedHandler struct {
+	lc *logCounter
+	s  *sched
+}
+
+func (h *schedHandler) Enabled(context.Context, slog.Level) bool { return true }
+func (h *schedHandler) WithAttrs([]slog.Attr) slog.Handler       { return h }
+func (h *schedHandler) WithGroup(string) slog.Handler            { return h }
+func (h *schedHandler) Handle(ctx context.Context, r slog.Record) error {
+	_ = h.lc.Handle(ctx, r)
+	if r.Message != "accept waiting" {
+		return nil
+	}
+	s := h.s
+	gid := curGID()
+	s.m.mu.Lock()
+	c := s.m.byGid[gid]
+	armed := c != nil && c == s.hookCall
+	rel := s.hookRelease
+	if armed {
+		s.hookCall = nil
+		s.hookParked = true
+		s.m.add("parked-at-log-record", c, c.L, 0, "accept waiting")
+	}
+	yield := s.yieldOnLog
+	s.m.mu.Unlock()
+	switch {
+	case armed:
+		<-rel
+	case yield:
+		runtime.Gosched()
+		runtime.Gosched()
+	}
+	return nil
+}
+
 type sched struct {
 	r      *vkit.Run
 	rng    *mrand.Rand
@@ -617,6 +669,7 @@ type sched struct {
 	ls     []*hListener
 	spares []*hListener
 	F      []mstate
+	FE     []mstate // the same history under the hypothesis that a connection whose inner Close failed keeps its slot
 	FL     []mstate // the same history under the hypothesis that an Accept refused with net.ErrClosed keeps a slot
 	lastQ  int
 	rounds [][]action
@@ -628,6 +681,12 @@ type sched struct {
 	acceptOnClose bool
 	roundsLeft    int
 	gaugeOff      bool
+	errClosed     []int // connections closed whose inner Close returned an error
+	yieldOnLog    bool  // guarded by m.mu
+	hookCall      *call // guarded by m.mu: the accept that parks at its "accept waiting" record
+	hookParked    bool  // guarded by m.mu
+	hookRelease   chan struct{}
+	inHookRound   bool
 	relFailed     int     // releases of this round caused by a failing inner Accept
 	relOther      int     // other releases of this round
 	prevParked    []*call // waiters on open listeners at the previous quiescent point
@@ -715,13 +774,13 @@ func (s *sched) runRound(acts ...action) {
 		switch a.Kind {
 		case "dial":
 			dialWG.Add(1)
-			go func(l *hListener) { defer dialWG.Done(); <-start; s.m.dial(l) }(s.ls[a.L])
+			go func(l *hListener, mode int) { defer dialWG.Done(); <-start; s.m.dial(l, mode) }(s.ls[a.L], a.CloseErr)
 		case "fail-pending":
 			dialWG.Add(1)
 			go func(l *hListener) { defer dialWG.Done(); <-start; s.m.failPending(l) }(s.ls[a.L])
 		case "accept":
 			if a.PreDial {
-				s.m.dial(s.ls[a.L])
+				s.m.dial(s.ls[a.L], a.CloseErr)
 			}
 			c := s.m.newCall(kAccept, a.L, 0)
 			spawned = append(spawned, c)
@@ -837,6 +896,10 @@ func (s *sched) quiesce() (parked []*call, ok bool) {
 					return parked, true
 				}
 			}
+		}
+		if polls < 100 {
+			runtime.Gosched()
+			continue
 		}
 		time.Sleep(sleep)
 		if sleep < 100*time.Microsecond {
@@ -960,8 +1023,12 @@ func (s *sched) collect(upTo int) (evs, hyp []mev) {
 			if hc.closer != nil && hc.closer.end >= 0 {
 				lo, hi = hc.closer.begin, hc.closer.end
 			}
-			evs = append(evs, mev{Adm: false, Lo: lo, Hi: hi, Desc: fmt.Sprintf("release conn %d", hc.id)})
+			evs = append(evs, mev{Adm: false, ErrClose: hc.closeErrMode > 0, Lo: lo, Hi: hi, Desc: fmt.Sprintf("release conn %d (inner close error mode %d)", hc.id, hc.closeErrMode)})
 			r.Bucket("limiter_connections_closed", 1)
+			if hc.closeErrMode > 0 {
+				s.errClosed = append(s.errClosed, hc.id)
+				r.Bucket("limiter_connections_closed_with_inner_close_error", 1)
+			}
 		}
 	}
 	m.mu.Unlock()
@@ -1028,10 +1095,17 @@ func (s *sched) settle() {
 		if len(evs)+len(hyp) > 18 {
 			r.Bucket("limiter_rounds_too_large_for_model", 1)
 			finals = []mstate{{truth, true}, {truth, false}}
-			s.FL = nil
+			s.FL, s.FE = nil, nil
 		} else {
 			finals = explore(s.F, evs, s.Stop, s.Resume)
 			s.FL = explore(s.FL, append(append([]mev(nil), evs...), hyp...), s.Stop, s.Resume)
+			var evsE []mev
+			for _, e := range evs {
+				if !e.ErrClose {
+					evsE = append(evsE, e)
+				}
+			}
+			s.FE = explore(s.FE, evsE, s.Stop, s.Resume)
 		}
 		if len(finals) == 0 {
 			r.Violation("limiter:accepted-while-stopped",
@@ -1076,9 +1150,12 @@ func (s *sched) settle() {
 			if !s.stillParked(wClosed, l1) {
 				continue
 			}
-			r.Violation("limiter:listener-close-left-waiter-parked",
-				"an Accept is still parked inside the limiter after its listener's Close has returned",
-				s.witness(map[string]any{"parked_calls": ids(wClosed)}))
+			key, what := "limiter:listener-close-left-waiter-parked", "an Accept is still parked inside the limiter after its listener's Close has returned"
+			if s.inHookRound {
+				key += ":closed-between-check-and-wait"
+				what = "the listener was closed while its Accept had found that it must wait but had not gone to sleep yet (held at the limiter's own \"accept waiting\" log record); Close has returned, " + what
+			}
+			r.Violation(key, what, s.witness(map[string]any{"parked_calls": ids(wClosed)}))
 			s.abandon("waiter of closed listener parked")
 			return
 		}
@@ -1204,6 +1281,18 @@ func (s *sched) settle() {
 			wit["accepts_that_returned_errclosed_without_admission"] = s.suspects
 			wit["model_if_those_accepts_kept_their_slot"] = s.FL
 		}
+		errCloseExplains := false
+		for _, f := range s.FE {
+			if !f.Acc && f.Count > truth {
+				errCloseExplains = true
+			}
+		}
+		if !leakExplains && errCloseExplains && len(s.errClosed) > 0 {
+			key = "limiter:slot-kept-after-failed-conn-close"
+			what = "after the Close of a connection whose inner Close returned an error the limiter behaves as if the connection still held its slot: " + what
+			wit["connections_whose_inner_close_failed"] = s.errClosed
+			wit["model_if_those_connections_kept_their_slot"] = s.FE
+		}
 		r.Violation(key, what, s.witness(wit))
 		s.abandon(key)
 		return
@@ -1320,7 +1409,7 @@ func (s *sched) randomRound() []action {
 			} else {
 				break // no listener to accept on: a close (below) instead
 			}
-			acts = append(acts, action{Kind: "accept", L: l, PreDial: rng.IntN(4) != 0})
+			acts = append(acts, action{Kind: "accept", L: l, PreDial: rng.IntN(4) != 0, CloseErr: closeErrMode(rng)})
 			accepts++
 			continue
 		case x < 75:
@@ -1336,7 +1425,7 @@ func (s *sched) randomRound() []action {
 				if rng.IntN(5) == 0 {
 					kind = "fail-pending" // temporary error, the listener stays open
 				}
-				acts = append(acts, action{Kind: kind, L: pend[i]})
+				acts = append(acts, action{Kind: kind, L: pend[i], CloseErr: closeErrMode(rng)})
 				pend = append(pend[:i], pend[i+1:]...)
 				continue
 			}
@@ -1410,6 +1499,18 @@ func (s *sched) randomRound() []action {
 	return acts
 }
 
+// closeErrMode draws how the inner Close of a new connection behaves.
+func closeErrMode(rng *mrand.Rand) int {
+	switch x := rng.IntN(100); {
+	case x < 12:
+		return 1
+	case x < 20:
+		return 2
+	default:
+		return 0
+	}
+}
+
 // drain brings the limiter back to "nothing open, nothing pending", one
 // action per round.
 func (s *sched) drain() {
@@ -1452,7 +1553,7 @@ func (s *sched) failedPendingProbe() {
 	}
 	const nWait = 2
 	for i := 0; i < nWait; i++ {
-		s.m.dial(b)
+		s.m.dial(b, 0)
 	}
 	for i := 0; i < nWait && !s.dead; i++ {
 		s.runRound(action{Kind: "accept", L: b.idx})
@@ -1487,6 +1588,133 @@ func (s *sched) failedPendingProbe() {
 	s.drain()
 }
 
+// closeWindowProbe is scripted, from the empty state.  Listener A takes all
+// `stop` slots with connections whose inner Close will fail.  An Accept on
+// listener B finds that it must wait and is held at the limiter's own "accept
+// waiting" log record, i.e. between the check of the wait condition and the
+// sleep; B is closed meanwhile (Close either completes or blocks on the
+// limiter's lock); the Accept is let go: it must return net.ErrClosed.  Then an
+// Accept parks on A and the failing connections are closed, each twice: every
+// one must give its slot back exactly once, so the waiter gets in.
+func (s *sched) closeWindowProbe() {
+	if s.dead {
+		return
+	}
+	a, b := s.addListener(), s.addListener()
+	for i := 0; i < s.Stop && !s.dead; i++ {
+		s.runRound(action{Kind: "accept", L: a.idx, PreDial: true, CloseErr: 1 + i%2})
+	}
+	if s.dead {
+		return
+	}
+	s.hookedCloseRound(b)
+	if s.dead {
+		return
+	}
+	s.m.dial(a, 0)
+	s.runRound(action{Kind: "accept", L: a.idx})
+	v := s.view()
+	if v.parked == 1 && len(v.open) == s.Stop {
+		s.r.Bucket("limiter_close_error_probes_set_up", 1)
+	}
+	for _, id := range v.open {
+		s.runRound(action{Kind: "close", Conn: id, Times: 2, Concurrent: id%2 == 0})
+	}
+	s.drain()
+}
+
+// hookedCloseRound: see closeWindowProbe.
+func (s *sched) hookedCloseRound(b *hListener) {
+	m := s.m
+	s.rounds = append(s.rounds, []action{{Kind: "accept-held-at-accept-waiting-record", L: b.idx}, {Kind: "listener-close", L: b.idx}})
+	s.relFailed, s.relOther = 0, 0
+	s.r.Bucket("limiter_rounds", 1)
+	rel := make(chan struct{})
+	released := false
+	release := func() {
+		if !released {
+			released = true
+			close(rel)
+		}
+	}
+	defer release()
+	c := m.newCall(kAccept, b.idx, 0)
+	m.mu.Lock()
+	s.hookCall, s.hookParked, s.hookRelease = c, false, rel
+	m.mu.Unlock()
+	start := make(chan struct{})
+	go s.doAccept(c, start)
+	close(start)
+	// until the Accept is held at the record (or turns out never to get there)
+	reached := false
+	for polls := 0; polls < 400_000; polls++ {
+		m.mu.Lock()
+		reached = s.hookParked
+		gid, begun, ended := c.gid, c.begin >= 0, c.end >= 0
+		m.mu.Unlock()
+		if reached || ended {
+			break
+		}
+		if begun && polls%4 == 3 {
+			if st, ok := snapshot()[gid]; ok && parkedStates[st.state] {
+				m.mu.Lock()
+				reached = s.hookParked
+				m.mu.Unlock()
+				if !reached {
+					break // asleep somewhere else: the limiter does not log this record
+				}
+			}
+		}
+		time.Sleep(50 * time.Microsecond)
+	}
+	m.mu.Lock()
+	s.hookCall = nil
+	m.mu.Unlock()
+	if !reached {
+		s.r.Bucket("limiter_accept_waiting_record_not_reached", 1)
+	}
+	// close B now
+	lc := m.newCall(kLClose, b.idx, 0)
+	b.closeBegunByPlan = true
+	start2 := make(chan struct{})
+	go s.doLClose(lc, start2)
+	close(start2)
+	closedInWindow := false
+	for polls := 0; polls < 400_000; polls++ {
+		m.mu.Lock()
+		gid, begun, ended := lc.gid, lc.begin >= 0, lc.end >= 0
+		m.mu.Unlock()
+		if ended {
+			closedInWindow = true
+			break
+		}
+		if begun && polls%4 == 3 {
+			if st, ok := snapshot()[gid]; ok && parkedStates[st.state] {
+				break // Close waits for the limiter's lock, which the held Accept owns
+			}
+		}
+		time.Sleep(50 * time.Microsecond)
+	}
+	release()
+	s.inHookRound = true
+	s.settle()
+	s.inHookRound = false
+	if s.dead || !reached {
+		return
+	}
+	m.mu.Lock()
+	ok := c.end >= 0 && c.err != nil && errors.Is(c.err, net.ErrClosed)
+	m.mu.Unlock()
+	if ok {
+		s.r.Bucket("limiter_listener_closed_while_accept_between_check_and_wait", 1)
+		if closedInWindow {
+			s.r.Bucket("limiter_listener_close_completed_inside_the_window", 1)
+		} else {
+			s.r.Bucket("limiter_listener_close_blocked_until_accept_slept", 1)
+		}
+	}
+}
+
 // probe is the scripted end of every schedule: from the empty state exactly
 // stop accepts are admitted, two more wait; then either the listener is closed
 // under the waiters or the connections are closed one by one.
@@ -1502,7 +1730,7 @@ func (s *sched) probe() {
 		nDial = s.Stop - 1
 	}
 	for i := 0; i < nDial; i++ {
-		s.m.dial(p)
+		s.m.dial(p, i%3)
 	}
 	for i := 0; i < s.Stop+2 && !s.dead; i++ {
 		s.runRound(action{Kind: "accept", L: p.idx})
@@ -1606,9 +1834,11 @@ func runSchedule(r *vkit.Run, idx int, lc *logCounter) {
 	s.m = newMonitor(s.Stop)
 	s.F = []mstate{{0, true}}
 	s.FL = []mstate{{0, true}}
+	s.FE = []mstate{{0, true}}
 	s.midClose = rng.IntN(100) < 40
+	s.yieldOnLog = rng.IntN(2) == 0
 	s.acceptOnClose = s.midClose && rng.IntN(100) < 50
-	lim, err := connlimiter.New(&connlimiter.Config{Logger: slog.New(lc), Stop: uint64(s.Stop), Resume: uint64(s.Resume)})
+	lim, err := connlimiter.New(&connlimiter.Config{Logger: slog.New(&schedHandler{lc: lc, s: s}), Stop: uint64(s.Stop), Resume: uint64(s.Resume)})
 	if err != nil {
 		r.Violation("limiter:config-rejected", fmt.Sprintf("New rejects stop=%d resume=%d: %v", s.Stop, s.Resume, err), nil)
 		return
@@ -1630,6 +1860,7 @@ func runSchedule(r *vkit.Run, idx int, lc *logCounter) {
 	}
 	s.drain()
 	s.failedPendingProbe()
+	s.closeWindowProbe()
 	s.probe()
 
 	class := fmt.Sprintf("stop%d/resume%d/k%d/%s", s.Stop, s.Resume, s.K, s.feat)
@@ -2116,9 +2347,13 @@ func TestCheck(t *testing.T) {
 	r.Assume("stop=0 is outside the limiter's documented domain (New rejects it)")
 	r.Assume("the active_stream_conns gauge lies between the number of open connections and open+pending at quiescent points")
 
+	t0 := time.Now()
 	limiterMonitor(r)
+	t1 := time.Now()
 	pipelineMonitor(r)
+	t2 := time.Now()
 	serviceMonitor(r)
+	r.Extra("wall_s_limiter_pipeline_service", []float64{t1.Sub(t0).Seconds(), t2.Sub(t1).Seconds(), time.Since(t2).Seconds()})
 
 	r.Require("limiter_schedules_completed", int64(r.N(100, 1000)))
 	r.Require("limiter_quiescent_points", int64(r.N(4000, 40000)))
@@ -2128,11 +2363,15 @@ func TestCheck(t *testing.T) {
 	r.Require("limiter_repeated_close_calls", int64(r.N(300, 3000)))
 	r.Require("limiter_pending_accepts_failed_by_listener_close", int64(r.N(40, 400)))
 	r.Require("limiter_concurrent_rounds", int64(r.N(500, 5000)))
+	r.Require("limiter_listener_closed_while_accept_between_check_and_wait", int64(r.N(300, 3000)))
+	r.Require("limiter_connections_closed_with_inner_close_error", int64(r.N(1000, 10000)))
+	r.Require("limiter_close_error_probes_set_up", int64(r.N(300, 3000)))
 	r.Require("limiter_failed_pending_accept_resumed_limiter_with_waiters_elsewhere", int64(r.N(300, 3000)))
 	r.Require("limiter_failed_pending_accept_resumed_limiter_with_waiters_elsewhere_transient", int64(r.N(60, 600)))
 	r.Require("limiter_failed_pending_accept_resumed_limiter_with_waiters_elsewhere_closed-late", int64(r.N(60, 600)))
 	r.Require("limiter_failed_pending_accept_resumed_limiter_with_waiters_elsewhere_closed", int64(r.N(60, 600)))
 	r.Require("service_cases_stop_reached", int64(r.N(8, 28)))
+	r.Require("service_dot_exchanges_served_after_failed_handshakes", int64(r.N(24, 84)))
 	r.Require("service_further_connections_not_served_while_stopped_"+flavLC, int64(r.N(40, 140)))
 	r.Require("service_further_connections_not_served_while_stopped_"+flavAddr, int64(r.N(25, 90)))
 	r.Require("service_cases_waiting_connection_served_after_resume", int64(r.N(8, 28)))
